@@ -488,6 +488,21 @@ class Mir:
         self.enums = enums
         return enums
 
+    def named_consts(self):
+        """`const NAME: f64|integer = literal;` items of the crate sources (name -> (type, literal text)); ambiguous names are dropped"""
+        if getattr(self, '_consts', None) is not None: return self._consts
+        out = {}; dup = set()
+        for root, dirs, files in os.walk(self.srcroot):
+            dirs[:] = [d for d in dirs if d not in ('target', '.git')]
+            for fnm in files:
+                if not fnm.endswith('.rs'): continue
+                for m in re.finditer(r'\bconst (\w+): (f64|u64|usize|i64|u32|i32) = ([^;]+);', open(os.path.join(root, fnm)).read()):
+                    if m.group(1) in out and out[m.group(1)] != (m.group(2), m.group(3).strip()): dup.add(m.group(1))
+                    out[m.group(1)] = (m.group(2), m.group(3).strip())
+        for d in dup: out.pop(d, None)
+        self._consts = out
+        return out
+
     def find(self, pat):
         hits = [n for n in self.fns if re.search(pat, n)]
         if len(hits) != 1: raise KeyError('pattern %r matches %d functions: %s' % (pat, len(hits), hits[:4]))
